@@ -146,7 +146,9 @@ theorem pushDefaultK_within : ∀ (b : B) (k : Nat), Within (positions b) (pushD
     unfold pushDefaultK
     refine within_ann (self_mem_positions _) ?_
     refine Within.ite _ (NoCtx.within _) ?_
-    refine Within.bind (Within.mono ?_ (pushDefaultKAt_within (.cons c m rest) _ k)) fun _ _ => Within.of_ok _
+    refine Within.ite _ (NoCtx.within _) ?_
+    refine Within.bind (Within.mono ?_ (pushDefaultKAt_within (.cons c m rest) _ k)) fun _ _ =>
+      Within.ite _ (NoCtx.within _) (Within.of_ok _)
     simp only [positions]; exact tail_sub'
 theorem pushDefaultKAll_within : ∀ (fs : BL) (k : Nat), Within (positionsL fs) (pushDefaultKAll fs k)
   | .nil, k => by unfold pushDefaultKAll; exact Within.of_ok _
